@@ -11,6 +11,7 @@ def mk_case(ts, rng, timeout=5):
     data = {"time": [0, 1]}
     for j, nm in enumerate(sorted({t["v"] for t in ts if t["k"] == "id"} | {"x", "y"})):
         data[nm] = [1 + j, -2 + j]
+        data[nm.rstrip(".") or nm] = data[nm]       # "q." names the variable q
     return {"mode": "C14", "tokens": lang.strip(ts), "text": lang.render(ts), "consts": ["k"], "constdecl": [["k", "2"]],
             "declare": ["x", "y"], "data": data, "factory": "StlDiscreteTimeOfflineSpecification", "timeout": timeout}
 
@@ -109,8 +110,21 @@ def main():
     for ts in ([vard("float", "z") + topic("z") + asrt, constd + topic("c") + asrt, topic("nope") + asrt, topic("x") + asrt,
                 imp("vmsgs", "Msg") + vard("Msg", "m") + asrt, imp("vmsgs", "Nope") + vard("Nope", "m") + asrt,
                 imp("math", "pi") + vard("pi", "m") + asrt, imp("os", "Foo") + vard("Foo", "m") + asrt, imp("nosuchmodule", "Msg") + vard("Msg", "m") + asrt,
-                imp("time", "sleep") + vard("sleep", "m") + asrt, vard("Msg", "m") + asrt]):
+                imp("time", "sleep") + vard("sleep", "m") + asrt, vard("Msg", "m") + asrt,
+                # a module that raises while it is imported; a field whose getter raises; identifiers that end in a dot
+                imp("vbadmod", "T") + vard("T", "m") + asrt,
+                imp("vmsgs", "Touchy") + vard("Touchy", "m") + [T_("id", "out", "out"), T_("="), T_("id", "m.p", "m.p"), T_("cmp", "ge", ">="), T_("num", 1, "1")],
+                imp("vmsgs", "Touchy") + vard("Touchy", "m") + [T_("id", "m.p", "m.p"), T_("="), T_("id", "x", "x"), T_("cmp", "ge", ">="), T_("num", 1, "1")],
+                [T_("id", "out", "out"), T_("="), T_("id", "q.", "q."), T_("cmp", "ge", ">="), T_("num", 1, "1")],
+                [T_("id", "a.", "a."), T_("="), T_("id", "x", "x"), T_("cmp", "ge", ">="), T_("num", 1, "1")],
+                vard("float", "x") + [T_("id", "out", "out"), T_("="), T_("id", "x.", "x."), T_("cmp", "ge", ">="), T_("num", 1, "1")]]):
         cases.append(mk_case([t for grp in [ts] for t in grp], rng))
+    # a bound given by a constant whose value is not a finite number (declare_const('k', 'float', 'inf'))
+    for val in ("inf", "nan", "-inf"):
+        c = mk_case([T_("id", "out", "out"), T_("="), T_("alw", "", "always"), T_("["), T_("num", 0, "0"), T_(":"), T_("id", "k", "k"), T_("]"),
+                     T_("(")] + asrt[2:] + [T_(")")], rng)
+        c["constdecl"] = [["k", val]]
+        cases.append(c)
     # empty and blank texts
     for txt in ("", " ", ";", "\n"):
         c = mk_case([lang.T(";")] if txt.strip() == ";" else [], rng)
